@@ -274,8 +274,10 @@ def removeData (n : Name) (s : State) : State × Res :=
 
 /-! ### surrogates -/
 
+def setSurs (c : Content) (x : List (Name × Sur)) : Content := { c with surs := x }
+
 def putSur (n : Name) (su : Sur) (s : State) : State × Res :=
-  ok { s with content := { s.content with surs := omInsert s.content.surs n su } }
+  ok { s with content := setSurs s.content (omInsert s.content.surs n su) }
 
 def addSurrogate (n : Name) (su : Sur) (s : State) : State × Res :=
   let s := inval .add_surrogate s
@@ -317,7 +319,7 @@ def updateSurrogate (n : Name) (u : SurUpd) (s : State) : State × Res :=
 
 def popSur (n : Name) (s : State) : State × Res :=
   if (omKeys s.content.surs).contains n then
-    ok { s with content := { s.content with surs := omErase s.content.surs n } }
+    ok { s with content := setSurs s.content (omErase s.content.surs n) }
   else fail s (.keyError n)
 
 def removeSurrogate (n : Name) (s : State) : State × Res :=
